@@ -232,9 +232,9 @@ pub fn def(tier: Tier) -> PropertyDef {
 				(Just(cfg), prop_oneof![3 => gen::regime_candle_stream_n(p, max_len), 1 => gen::candle_stream_n(p, max_len)])
 			})
 			.prop_map(|(cfg, s)| RCase { cfg, s });
-		checks.push(pt(&format!("indicator_{name}"), tier.pick(600, 6000), strat, run_indicator));
+		checks.push(pt(&format!("indicator_{name}"), tier.pick(2500, 10000), strat, run_indicator));
 	}
-	checks.push(pt("methods", tier.pick(6000, 60000), gen::val_stream(2, max_len, Domain::Any, false), run_methods));
+	checks.push(pt("methods", tier.pick(20000, 100000), gen::val_stream(2, max_len, Domain::Any, false), run_methods));
 	checks.push(pt("candle_helpers", tier.pick(6000, 60000), prop_oneof![gen::candle_stream(2, 300), gen::regime_candle_stream_n(10, 300)], run_candle_helpers));
 	PropertyDef {
 		id: "C12",
